@@ -24,6 +24,12 @@ func H_C17_dq() {
 // the one the tokenizer is in).
 func H_C17_dq_context() {
 	// (no double quote in the prefix: `""` next to the identifier is the embedded-quote case of H_C17_dq)
+	if verif.Choose("alphabet", 2) == 1 {
+		// comments holding quotes, before the identifier
+		prefix := verif.Str("prefix", 5+verif.Tier(), "-' \n#")
+		checkDQ(prefix + "\"b\"")
+		return
+	}
 	prefix := verif.Str("prefix", 3+verif.Tier(), "`\\'a ")
 	checkDQ(prefix + "\"b\"")
 }
@@ -89,8 +95,11 @@ func checkDQ(s string) {
 func H_C17_arrays() {
 	maxLen := 5 + verif.Tier()
 	alpha := "[]'\"`a,1"
-	if verif.Choose("backslash", 2) == 1 {
+	switch verif.Choose("backslash", 3) {
+	case 1:
 		alpha = "[]'\\\"a" // escapes inside literals: \\ \' \" before and between brackets
+	case 2:
+		alpha = "[]-' \n" // comments holding brackets and quotes
 	}
 	s := verif.Str("s", maxLen, alpha)
 	// the implementation runs first, on the still symbolic bytes
@@ -121,7 +130,7 @@ func H_C17_arrays() {
 	for i := 0; i < len(s); i++ {
 		protected := false
 		for k := range class {
-			if start[k] <= i && i < end[k] && (class[k] == verif.TokString || (class[k] == verif.TokIdent && p[start[k]] == '`')) {
+			if start[k] <= i && i < end[k] && (class[k] == verif.TokString || class[k] == verif.TokComment || (class[k] == verif.TokIdent && p[start[k]] == '`')) {
 				protected = true
 			}
 		}
